@@ -42,7 +42,10 @@ pub fn run(ctx: &mut Ctx) {
                         let ts = Timestamp::new(date, time);
                         let a = OracleDate::from(ts);
                         let b = OracleDate::new(date, time);
-                        (a.usecs(), b.usecs(), Timestamp::from(a).usecs(), a == b, a.extract())
+                        use sqldatetime::DateTime;
+                        let acc_ok = a.year() == ts.year() && a.month() == ts.month() && a.day() == ts.day() && a.hour() == ts.hour() && a.minute() == ts.minute()
+                            && a.second() == Some((s0 / US_SEC % 60) as f64) && DateTime::date(&a) == Some(date) && Time::from(a).usecs() == s0;
+                        (a.usecs(), b.usecs(), Timestamp::from(a).usecs(), a == b && acc_ok, a.extract())
                     });
                     let ok = match &got {
                         Ok((a, b, back, eq, (d2, t2))) => *a as i128 == want && *b as i128 == want && *back as i128 == want && *eq && d2.days() == n && t2.usecs() == s0 && rg::od_ok(*a as i128),
